@@ -18,7 +18,7 @@ RULE = ("every price of the exact domain (ticks 1/8..100 exactly representable x
 EXACT_TICKS = [0.125, 0.25, 0.5, 1.0, 2.0, 3.0, 5.0, 10.0, 100.0, 1, 2, 10]
 DEC_TICKS = [0.1, 0.01, 0.001, 0.00001]
 WIT = ["on_grid_unchanged", "buy_rounded_down", "sell_rounded_up", "adjacent_float_below_grid", "adjacent_float_above_grid",
-       "decimal_tick_case", "market_order_untouched", "large_grid_index", "same_price_both_sides_one_market", "long_lived_market_submissions", "tick_size_reassigned_after_setup"]
+       "decimal_tick_case", "market_order_untouched", "large_grid_index", "same_price_both_sides_one_market", "long_lived_market_submissions", "tick_size_reassigned_after_setup", "runner_configured_tick"]
 
 
 def neighbourhood(tick, ks):
@@ -225,8 +225,55 @@ def shared_fn(case, wit):
     return (tick, direction)
 
 
+def runner_cases(tier):
+    for chain in ("own", "parent", "grandparent_and_parent", "grandparent_only"):
+        for tick in (0.25, 2.5, 1):
+            yield (chain, tick)
+
+
+def runner_fn(case, wit):
+    """the tick size a market gets through the runner is the configured one (own key, else the nearest ancestor's), and
+    orders submitted to that market are rounded on that grid"""
+    import random
+    from pams.runners.sequential import SequentialRunner
+    chain, tick = case
+    other = 10.0
+    cfg = {"simulation": {"markets": ["M"], "agents": ["A"], "sessions": [{"sessionName": 0, "iterationSteps": 1, "withOrderPlacement": True,
+                                                                             "withOrderExecution": True, "withPrint": False}]},
+           "A": {"class": "FCNAgent", "numAgents": 1, "markets": ["M"], "cashAmount": 100, "assetVolume": 1, "fundamentalWeight": 1.0, "chartWeight": 0.0,
+                 "noiseWeight": 0.0, "noiseScale": 0.001, "timeWindowSize": 3, "orderMargin": 0.0},
+           "G": {"class": "Market", "marketPrice": 100.0, "tickSize": other}, "P": {"extends": "G"}, "M": {"extends": "P"}}
+    if chain == "own":
+        cfg["P"]["tickSize"] = other
+        cfg["M"]["tickSize"] = tick
+    elif chain == "parent":
+        cfg["P"]["tickSize"] = tick
+    elif chain == "grandparent_and_parent":
+        cfg["G"]["tickSize"] = other
+        cfg["P"]["tickSize"] = tick
+    else:
+        cfg["G"]["tickSize"] = tick
+    r = SequentialRunner(cfg, random.Random(2), None)
+    r._setup()
+    m = r.simulator.name2market["M"]
+    m._update_time(100.0) if m.get_time() < 0 else None
+    m._is_running = False
+    ft = F(tick)
+    for p in (tick * 3 + tick / 4, tick * 40 + tick / 2, 7.3, 101.0625):
+        for is_buy in (True, False):
+            o = Order(0, m.market_id, is_buy, LIMIT_ORDER, 1, price=p)
+            m._add_order(o)
+            fa, fp = F(o.price), F(p)
+            if (fa / ft).denominator != 1 or (is_buy and fa > fp) or (not is_buy and fa < fp) or abs(fa - fp) >= ft:
+                raise Violation("C19.configured_grid", "a limit price was not rounded onto the grid of the tick size the configuration gives the market (own key, else nearest ancestor)",
+                                "tick %r configured at %s: market.tick_size=%r, %s %r accepted at %r" % (tick, chain, m.tick_size, "buy" if is_buy else "sell", p, o.price))
+    wit.inc("runner_configured_tick")
+    return case
+
+
 def run(tier, seed):
     res = common.Result("C19", tier, seed)
+    run_grid(res, "tick_size_through_the_runner", list(runner_cases(tier)), runner_fn, seed)
     run_grid(res, "tick_rounding", list(cases(tier)), fn, seed)
     run_grid(res, "same_price_both_sides", list(seq_cases(tier)), seq_fn, seed)
     run_grid(res, "one_long_lived_market", list(shared_cases(tier)), shared_fn, seed)
@@ -244,6 +291,15 @@ def replay(payload):
         c = payload["case"]
         try:
             seq_fn((c[0], c[1], c[2], tuple(c[3])), common.Counter())
+        except Violation as v:
+            print("  ==> VIOLATION %s: %s" % (v.monitor, v.msg))
+            print("VIOLATION property=C19 replay=(this file)")
+            return 1
+        print("replay: no violation on this tree")
+        return 0
+    if payload.get("grid") == "tick_size_through_the_runner":
+        try:
+            runner_fn(tuple(payload["case"]), common.Counter())
         except Violation as v:
             print("  ==> VIOLATION %s: %s" % (v.monitor, v.msg))
             print("VIOLATION property=C19 replay=(this file)")
